@@ -166,12 +166,22 @@ func symtabConfigs() []config {
 
 var timeoutS = 120
 
+// runChild runs one (program, configuration) pair; a run that exceeds the time limit is repeated once with five
+// times the limit before it is believed (the machine is shared).
 func runChild(p program, cfg config) childOut {
+	out := runChildT(p, cfg, timeoutS)
+	if out.Timeout {
+		out = runChildT(p, cfg, 5*timeoutS)
+	}
+	return out
+}
+
+func runChildT(p program, cfg config, limitS int) childOut {
 	exe, err := os.Executable()
 	if err != nil {
 		panic(err)
 	}
-	ctx, cancel := context.WithTimeout(context.Background(), time.Duration(timeoutS)*time.Second)
+	ctx, cancel := context.WithTimeout(context.Background(), time.Duration(limitS)*time.Second)
 	defer cancel()
 	cmd := exec.CommandContext(ctx, exe)
 	env := []string{}
@@ -333,7 +343,11 @@ func flatFails(r *engine.R, cfg config) bool {
 func checkProgram(r *engine.R, p program, cfgs []config) {
 	ref := runChild(p, refConfig)
 	r.Eval(1)
-	if ref.Rejected || ref.Panic != "" || ref.Crash != "" || ref.Timeout {
+	if ref.Timeout {
+		r.Capped(p.ID + ": the reference run did not finish")
+		return
+	}
+	if ref.Rejected || ref.Panic != "" || ref.Crash != "" {
 		if ref.Rejected {
 			panic("generator bug: program rejected by the checker: " + p.ID + "\n" + ref.Diags + "\n" + p.Src)
 		}
@@ -355,6 +369,14 @@ func checkProgram(r *engine.R, p program, cfgs []config) {
 			r.Count("pairs_equal", 1)
 			continue
 		}
+		if got.Timeout {
+			// no wall-clock oracle: a pair that does not finish is recorded as not explored (termination under small
+			// queues is property C16), never as a violation of this property
+			r.Outcome("did not finish (not judged)")
+			r.Count("pairs_timed_out", 1)
+			r.Capped(fmt.Sprintf("%s under %s did not finish within %d s (twice)", p.ID, cfg.Name, 5*timeoutS))
+			continue
+		}
 		if got.exhaustion() && cfg.LowersLimit {
 			r.Outcome("stack limit exhausted (allowed)")
 			r.Count("pairs_limit_exhausted", 1)
@@ -373,7 +395,7 @@ func checkProgram(r *engine.R, p program, cfgs []config) {
 			r.Violation(fmt.Sprintf("initial value stack smaller than a single frame needs (flat control program fails too) init<=%d", tinyClass(cfg.InitSlots)), detail, input)
 			r.Outcome("deviates: tiny initial stack")
 		case cfg.Class == "stack":
-			r.Violation(fmt.Sprintf("value-stack growth changes the result: live %s", p.Kind), detail, input)
+			r.Violation("value-stack growth changes the result: "+liveWhat(p), detail, input)
 			r.Outcome("deviates: stack growth (" + got.kindCoarse() + ")")
 		default:
 			r.Violation(fmt.Sprintf("%s configuration changes the result of %s → %s", cfg.Class, p.Kind, got.kindCoarse()), detail, input)
@@ -381,6 +403,13 @@ func checkProgram(r *engine.R, p program, cfgs []config) {
 		}
 	}
 	r.Sample(map[string]any{"program": p.ID, "source": p.Src, "reference_outcome": want})
+}
+
+func liveWhat(p program) string {
+	if p.Kind == "plain" {
+		return "plain recursion (no closures, no generators)"
+	}
+	return "live " + p.Kind
 }
 
 // kindCoarse: for the tiny-stack region the exact crash site is memory-corruption dependent: keep only the class.
